@@ -1412,8 +1412,11 @@ where
         // decompose coefficient-wise: coeff[i] = select(b, t_coeff[i], s_coeff[i]).
         // For the input without provenance, decompose it recursively (may generate witnesses).
         // This saves D witness allocations for every input that IS in the provenance cache.
+        // The entry is consumed: `connect` shares select provenance between both sides, so
+        // after `connect(select(b, t, s), t)` the branch `t` carries `(b, t, s)` itself and a
+        // lookup that left it in place would recurse into `t` forever.
         if let Some((b, t, s)) = (!self.decompose_skip_select_provenance)
-            .then(|| self.ext_select_sources.get(&x).copied())
+            .then(|| self.ext_select_sources.remove(&x))
             .flatten()
         {
             let t_coeffs_opt = self.ext_recompose_coeffs.get(&t).cloned();
